@@ -1,4 +1,5 @@
 import MtailVerif.Driver.C08
+import MtailVerif.Driver.C15
 /-! `mtailmodel <prop>`: reads the case lines written by the Go harness on stdin and prints
     `<id> OBS <observation>` computed by the Lean model.  Core Lean only (links as an exe). -/
 open MtailVerif MtailVerif.Driver
@@ -6,6 +7,7 @@ open MtailVerif MtailVerif.Driver
 def handlerFor (prop : String) : Option (List String → String) :=
   match prop with
   | "C08" => some C08.handle
+  | "C15" => some C15.handle
   | _ => none
 
 partial def loop (h : IO.FS.Stream) (out : IO.FS.Stream) (f : List String → String) : IO Unit := do
